@@ -91,3 +91,47 @@ Proof.
     eapply (proj1 (header_roundtrip_std (p_hdr p) _ ci ch segs Wh Vh _ Hp)).
     Unshelve. unfold trunc. change (2 ^ 16) with 65536. lia.
 Qed.
+
+Lemma packet_roundtrip_onehop p alh al i h1 h2 :
+  model_wf p = true -> packet_wire_valid p = true -> h_path (p_hdr p) = DP_OneHop i h1 h2 ->
+  match p_pl p with
+  | PL_Raw _ => decode_packet 0 (encode_packet_al p alh al) = Ok (p, [])
+  | PL_Udp _ _ _ => decode_packet 1 (encode_packet_al p alh al) = Ok (p, [])
+  | PL_Scmp _ => True
+  end.
+Proof.
+  intros W V Hp. apply packet_roundtrip_core; try assumption.
+  - apply (encoded_layout p alh al W V). rewrite Hp. exact I.
+  - pose proof W as W'. unfold model_wf in W'. apply Bool.andb_true_iff in W'. destruct W' as [Wh _].
+    pose proof V as V'. unfold packet_wire_valid in V'. apply Bool.andb_true_iff in V'. destruct V' as [V' Vsz].
+    apply Bool.andb_true_iff in V'. destruct V' as [Vh _].
+    eapply (header_roundtrip_onehop (p_hdr p) _ i h1 h2 Wh Vh _ Hp).
+    Unshelve. unfold trunc. change (2 ^ 16) with 65536. lia.
+Qed.
+
+(** all path kinds *)
+Lemma packet_roundtrip_all p alh al :
+  model_wf p = true -> packet_wire_valid p = true ->
+  match p_pl p with
+  | PL_Raw _ => decode_packet 0 (encode_packet_al p alh al) = Ok (p, [])
+  | PL_Udp _ _ _ => decode_packet 1 (encode_packet_al p alh al) = Ok (p, [])
+  | PL_Scmp _ => True
+  end.
+Proof.
+  intros W V. destruct (h_path (p_hdr p)) as [ci ch segs|i a b| |pt d] eqn:E.
+  - exact (packet_roundtrip_std p alh al ci ch segs W V E).
+  - exact (packet_roundtrip_onehop p alh al i a b W V E).
+  - apply packet_roundtrip_simple; try assumption. rewrite E. exact I.
+  - apply packet_roundtrip_simple; try assumption. rewrite E. exact I.
+Qed.
+
+Lemma header_roundtrip_all h psize :
+  header_wf h = true -> header_wire_valid h = true -> psize < 65536 ->
+  decode_header (encode_header h psize (zeros (header_size h))) = Ok h.
+Proof.
+  intros W V Hp. destruct (h_path h) as [ci ch segs|i a b| |pt d] eqn:E.
+  - exact (proj1 (header_roundtrip_std h psize ci ch segs W V Hp E)).
+  - exact (header_roundtrip_onehop h psize i a b W V Hp E).
+  - apply header_roundtrip_simple_paths; try assumption. rewrite E. exact I.
+  - apply header_roundtrip_simple_paths; try assumption. rewrite E. exact I.
+Qed.
